@@ -389,11 +389,9 @@ theorem pres_trkNotify (t : Nat) (s : State) : Pres s (trkNotify t s) := by
 
 theorem pres_exchangeRep (d n : Nat) (s : State) : Pres s (exchangeRep d n s) := by
   unfold exchangeRep
-  simp only []
-  refine Pres.trans ?_ (pres_modSlot _ _ _)
   split
-  · exact Pres.refl _
-  · exact (pres_modRep _ _ _).trans (pres_deleteRep _ _)
+  · exact pres_modSlot _ _ _
+  · exact ((pres_modRep _ _ _).trans (pres_modSlot _ _ _)).trans (pres_deleteRep _ _)
 
 /-! ### allocation -/
 
@@ -462,7 +460,7 @@ theorem pres_apply (op : Op) (s : State) : Pres s (apply op s) := by
         · exact pres_deleteRepWithCheck _ _
         · split
           · exact Pres.refl _
-          · exact (pres_cloneRep _ _).trans ((pres_exchangeRep _ _ _).trans (pres_modSlot _ _ _))
+          · exact (pres_cloneRep _ _).trans ((pres_modSlot _ _ _).trans (pres_exchangeRep _ _ _))
   case masgS d x =>
     split
     · exact Pres.refl _
